@@ -478,54 +478,40 @@ func (c *Ctx) readDefaults() {
 	info := c.info("type1")
 	fd := c.funcDecl("type1", "", "Read")
 	fname := "type1.Read"
-	type def struct {
+	// the constants that can flow into the destination of each entry (on the path where the
+	// dictionary has no such entry the destination receives the default)
+	read := c.fn("type1", "Read")
+	privT := c.typeObj("type1", "PrivateDict")
+	for _, d := range []struct {
 		key  string
-		want string
-	}
-	for _, d := range []def{{"BlueScale", "0.039625"}, {"BlueShift", "7"}, {"BlueFuzz", "1"}, {"lenIV", "4"}} {
-		// statement that looks the key up
-		found := false
-		okVal := false
-		got := ""
-		for i, st := range fd.Body.List {
-			uses := false
-			ast.Inspect(st, func(n ast.Node) bool {
-				if ix, ok := n.(*ast.IndexExpr); ok {
-					if s, ok := constStrOf(info, ix.Index); ok && s == d.key {
-						uses = true
-					}
-				}
-				return true
-			})
-			if !uses {
-				continue
+		want float64
+	}{{"BlueScale", 0.039625}, {"BlueShift", 7}, {"BlueFuzz", 1}} {
+		var consts []float64
+		n := 0
+		eachInstr(read, func(ins ssa.Instruction) {
+			if st, ok := ins.(*ssa.Store); ok && isFieldAddr(st.Addr, privT, d.key) {
+				n++
+				consts = append(consts, c.constSources(st.Val)...)
 			}
-			found = true
-			// the following if statement carries the default
-			for j := i; j < len(fd.Body.List) && j <= i+1; j++ {
-				ifs, ok := fd.Body.List[j].(*ast.IfStmt)
-				if !ok {
-					continue
-				}
-				ast.Inspect(ifs, func(n ast.Node) bool {
-					if as, ok := n.(*ast.AssignStmt); ok && len(as.Rhs) == 1 {
-						if v, ok := constOf(info, as.Rhs[0]); ok {
-							s := v.String()
-							if v.Kind() == constant.Float {
-								f, _ := constant.Float64Val(v)
-								s = fmt.Sprint(f)
-							}
-							got = s
-							if s == d.want {
-								okVal = true
-							}
-						}
-					}
-					return true
-				})
+		})
+		consts = uniqFloats(consts)
+		got := fmt.Sprint(consts)
+		c.check(n > 0 && len(consts) == 1 && consts[0] == d.want, "T1-DEFAULTS", fname, fmt.Sprintf("default of %s = %v", d.key, d.want), fd.Pos(), got, fmt.Sprintf("the default substituted for a missing %s is %s, the Type 1 book says %v", d.key, got, d.want))
+	}
+	{
+		// lenIV: the number of lead bytes handed to the charstring decryption
+		deob := c.fn("type1", "deobfuscateCharstring")
+		var consts []float64
+		n := 0
+		for _, f := range c.modFuncs {
+			for _, call := range staticCalls(f, deob) {
+				n++
+				consts = append(consts, c.constSources(call.Common().Args[1])...)
 			}
 		}
-		c.check(found && okVal, "T1-DEFAULTS", fname, "default of "+d.key+" = "+d.want, fd.Pos(), got, fmt.Sprintf("the default substituted for a missing %s is %s, the Type 1 book says %s", d.key, got, d.want))
+		consts = uniqFloats(consts)
+		got := fmt.Sprint(consts)
+		c.check(n > 0 && len(consts) == 1 && consts[0] == 4, "T1-DEFAULTS", fname, "default of lenIV = 4", fd.Pos(), got, "the default substituted for a missing lenIV is "+got+", the Type 1 book says 4")
 	}
 	// FontMatrix default
 	okFM := false
@@ -742,4 +728,78 @@ func (c *Ctx) t1CommandClauses() (map[string]*ast.CaseClause, *types.Info) {
 		return false
 	})
 	return clauses, info
+}
+
+// constSources: the numeric constants that can flow into v through phis, conversions and — for
+// parameters of module functions — the arguments of the static call sites.
+func (c *Ctx) constSources(v ssa.Value) []float64 {
+	seen := map[ssa.Value]bool{}
+	set := map[float64]bool{}
+	var walk func(v ssa.Value, depth int)
+	walk = func(v ssa.Value, depth int) {
+		v = origin(v)
+		if seen[v] || depth > 12 {
+			return
+		}
+		seen[v] = true
+		switch x := v.(type) {
+		case *ssa.Const:
+			if x.Value != nil && (x.Value.Kind() == constant.Int || x.Value.Kind() == constant.Float) {
+				f, _ := constant.Float64Val(constant.ToFloat(x.Value))
+				set[f] = true
+			}
+		case *ssa.Phi:
+			for _, e := range x.Edges {
+				walk(e, depth+1)
+			}
+		case *ssa.Convert:
+			walk(x.X, depth+1)
+		case *ssa.ChangeType:
+			walk(x.X, depth+1)
+		case *ssa.MakeInterface:
+			walk(x.X, depth+1)
+		case *ssa.Parameter:
+			fn := x.Parent()
+			idx := -1
+			for i, p := range fn.Params {
+				if p == x {
+					idx = i
+				}
+			}
+			for _, g := range c.modFuncs {
+				for _, call := range staticCalls(g, fn) {
+					if idx >= 0 && idx < len(call.Common().Args) {
+						walk(call.Common().Args[idx], depth+1)
+					}
+				}
+			}
+		case *ssa.UnOp:
+			// a local cell assigned on several paths
+			if al, ok := x.X.(*ssa.Alloc); ok && x.Op == token.MUL {
+				for _, r := range *al.Referrers() {
+					if st, ok := r.(*ssa.Store); ok && st.Addr == ssa.Value(al) {
+						walk(st.Val, depth+1)
+					}
+				}
+			}
+		}
+	}
+	walk(v, 0)
+	var out []float64
+	for f := range set {
+		out = append(out, f)
+	}
+	sort.Float64s(out)
+	return out
+}
+
+func uniqFloats(l []float64) []float64 {
+	sort.Float64s(l)
+	var out []float64
+	for i, f := range l {
+		if i == 0 || f != l[i-1] {
+			out = append(out, f)
+		}
+	}
+	return out
 }
